@@ -8,7 +8,8 @@ import (
 
 func nextRune(b []byte, i int) (rune, int, error) {
 	ch, size := utf8.DecodeRune(b[i:])
-	if ch == utf8.RuneError {
+	// (RuneError, 0|1) is malformed input; U+FFFD itself is a valid character and decodes with width 3.
+	if ch == utf8.RuneError && size <= 1 {
 		return ch, i, fmt.Errorf("bad unicode rune")
 	}
 	return ch, i + size, nil
